@@ -62,6 +62,9 @@ type Case struct {
 	// Deep adds that many routes nested as prefixes of each other ("/deep/z", "/deep/zz", ...) and as many siblings:
 	// read paths size their scratch space from the depth and width of the tree, so shape is part of the configuration.
 	Deep int `json:"deep,omitempty"`
+	// Empty: the committed tree holds no route at all when the writer opens its transaction ("fresh": nothing was ever
+	// registered, "truncated": everything was registered and then removed by a committed Truncate)
+	Empty string `json:"empty,omitempty"`
 }
 
 var stages = []string{"opened", "after-writes", "inside-updates", "after-iter", "after-snapshot"}
@@ -223,6 +226,14 @@ func build(c *Case) (*fox.Router, error) {
 	f, err := fox.New(opts...)
 	if err != nil {
 		return nil, err
+	}
+	if c.Empty == "fresh" {
+		return f, nil
+	}
+	if c.Empty == "truncated" {
+		defer func() {
+			_ = f.Updates(func(txn *fox.Txn) error { return txn.Truncate() })
+		}()
 	}
 	pre := ""
 	if c.Hostnames {
@@ -517,7 +528,8 @@ func genCase(t *rapid.T) *Case {
 		Stage: gen.Pick(t, stages, "stage"), Writes: gen.IntR(t, 0, 6, "writes"),
 		TS: gen.Pick(t, []int{rt.TSNone, rt.TSIgnore, rt.TSRedirect}, "ts"), NoMethod: gen.Chance(t, 1, 2, "nm"), AutoOptions: gen.Chance(t, 1, 2, "ao"),
 		Resolver: gen.Chance(t, 1, 2, "res"), Middleware: gen.IntR(t, 0, 3, "mw"), Hostnames: gen.Chance(t, 1, 3, "hosts"),
-		Deep: gen.Pick(t, []int{0, 0, 8, 24, 25, 26, 40, 120}, "deep"),
+		Deep:  gen.Pick(t, []int{0, 0, 8, 24, 25, 26, 40, 120}, "deep"),
+		Empty: gen.Pick(t, []string{"", "", "", "", "fresh", "truncated"}, "empty"),
 	}
 }
 
@@ -533,7 +545,8 @@ func fail(t interface{ Fatalf(string, ...any) }, c *Case, err error) {
 func TestMatrix(t *testing.T) {
 	for _, st := range stages {
 		for _, c := range []*Case{{Stage: st, Writes: 3}, {Stage: st, Writes: 5, TS: rt.TSRedirect, NoMethod: true, AutoOptions: true, Resolver: true, Middleware: 2, Hostnames: true},
-			{Stage: st, Writes: 3, Deep: 40}, {Stage: st, Writes: 2, TS: rt.TSIgnore, Hostnames: true, Deep: 64}} {
+			{Stage: st, Writes: 3, Deep: 40}, {Stage: st, Writes: 2, TS: rt.TSIgnore, Hostnames: true, Deep: 64},
+			{Stage: st, Writes: 3, Empty: "fresh", NoMethod: true, AutoOptions: true}, {Stage: st, Writes: 2, Empty: "truncated", Deep: 8}} {
 			stats.Sample(c)
 			if err := checkCase(c, true); err != nil {
 				fail(t, c, err)
